@@ -57,13 +57,59 @@ func mutate(r *prng.R, s string) string {
 			chunk := append([]byte{}, b[i:j]...)
 			b = append(b[:j], append(chunk, b[j:]...)...)
 		case 7: // mixed indentation
-			b = append(b[:i], append([]byte("\n \t"), b[i:]...)...)
+			if r.Intn(2) == 0 {
+				b = append(b[:i], append([]byte("\n \t"), b[i:]...)...)
+			} else {
+				b = []byte(mixIndent(r, string(b)))
+			}
 		default:
 			s2 := strings.Replace(string(b), "<<endif>>", "", 1)
 			b = []byte(s2)
 		}
 	}
 	return string(b)
+}
+
+// mixIndent replaces the indentation of one indented content line by a mix of tabs and spaces of the same, a smaller or a
+// larger width (a tab counts 8 columns): mixed indentation must be refused wherever it occurs, also on a line that merely
+// continues or closes a level.
+func mixIndent(r *prng.R, s string) string {
+	lines := strings.SplitAfter(s, "\n")
+	var candidates []int
+	for i, l := range lines {
+		t := strings.TrimLeft(l, " \t")
+		if len(t) < len(l) && strings.TrimSpace(t) != "" && !strings.HasPrefix(t, "//") {
+			candidates = append(candidates, i)
+		}
+	}
+	if len(candidates) == 0 {
+		return s
+	}
+	i := candidates[r.Intn(len(candidates))]
+	t := strings.TrimLeft(lines[i], " \t")
+	width := 0
+	for _, c := range lines[i][:len(lines[i])-len(t)] {
+		if c == '\t' {
+			width += 8
+		} else {
+			width++
+		}
+	}
+	mixes := []string{" \t", "\t ", "  \t", " \t ", "        \t", "\t        ", "\t\t "}
+	widths := []int{9, 9, 10, 10, 16, 16, 17}
+	// prefer a mix that is not wider than the line was: it continues or closes a level instead of opening one
+	var fitting []string
+	for k, m := range mixes {
+		if widths[k] <= width {
+			fitting = append(fitting, m)
+		}
+	}
+	if len(fitting) > 0 && r.Intn(4) != 0 {
+		lines[i] = fitting[r.Intn(len(fitting))] + t
+	} else {
+		lines[i] = mixes[r.Intn(len(mixes))] + t
+	}
+	return strings.Join(lines, "")
 }
 
 func seedString(r *prng.R) string {
@@ -108,7 +154,10 @@ func init() {
 				text = mutate(r, text)
 			}
 		case "mixed":
-			switch r.Intn(3) {
+			switch r.Intn(4) {
+			case 3:
+				// an otherwise valid script with exactly one line indented with both tabs and spaces
+				text = mixIndent(r, validScript(r))
 			case 0:
 				text = validScript(r)
 			case 1:
